@@ -41,6 +41,9 @@ def setup_paths():
     if os.path.isdir(deps) and deps not in sys.path:
         sys.path.append(deps)
     sys.dont_write_bytecode = True
+    # the library logs every rejected decode on stderr; the monitors do not need it
+    import logging
+    logging.disable(logging.CRITICAL)
 
 
 def assert_repo_import():
